@@ -25,21 +25,36 @@ var apps = []appDesc{
 	{name: "mt", keeperPkg: pMTKeeper, modPkg: pMT, typesPkg: pMTTypes, send: "SendMtTransfer", msg: "MtTransfer", burn: "BurnMT", mint: []string{"MintMT", "IssueMT"}, keeperFld: "MtKeeper", hasAmount: true},
 }
 
+func isTokenKeeperCall(c *ssa.CallCommon, app appDesc) bool {
+	return c.IsInvoke() && strings.HasSuffix(typeString(c.Value.Type()), "types."+app.keeperFld)
+}
+
 // tokenCalls lists the calls on the token-module keeper (interface NftKeeper / MtKeeper)
-// made by fi, by method name.
+// made directly by fi, by method name.
 func tokenCalls(fi *FnInfo, app appDesc) map[string][]*ssa.Call {
 	out := map[string][]*ssa.Call{}
 	for _, b := range fi.Fn.Blocks {
 		for _, in := range b.Instrs {
 			c, ok := in.(*ssa.Call)
-			if !ok || !c.Call.IsInvoke() {
-				continue
-			}
-			if !strings.HasSuffix(typeString(c.Call.Value.Type()), "types."+app.keeperFld) {
+			if !ok || !isTokenKeeperCall(&c.Call, app) {
 				continue
 			}
 			out[c.Call.Method.Name()] = append(out[c.Call.Method.Name()], c)
 		}
+	}
+	return out
+}
+
+// tokenCallsDeep also finds the calls inside same-package helpers of fi (depth 2), with
+// their arguments expressed in fi's vocabulary.
+func (k *K) tokenCallsDeep(fi *FnInfo, app appDesc) map[string][]DeepCall {
+	out := map[string][]DeepCall{}
+	for _, dc := range k.deepCalls(fi, func(c *ssa.CallCommon) bool { return isTokenKeeperCall(c, app) }, 2) {
+		if _, isCall := dc.Call.(*ssa.Call); !isCall {
+			continue
+		}
+		n := dc.Call.Common().Method.Name()
+		out[n] = append(out[n], dc)
 	}
 	return out
 }
@@ -85,30 +100,27 @@ func (k *K) appSendRule(id string, app appDesc) {
 	if k.r.BrokenIf(sp == nil, "%s: parameters not identified", fn) {
 		return
 	}
-	tc := tokenCalls(fi, app)
+	tc := k.tokenCallsDeep(fi, app)
 	locks, burns := tc["TransferOwner"], tc[app.burn]
 	if len(locks) == 0 || len(burns) == 0 {
 		k.r.Violate(id+"/"+app.send+".ops", "MUST-PASS", fn, k.w.Pos(fi.Fn.Pos()), fmt.Sprintf("send function has %d escrow transfers and %d burns; expected at least one of each", len(locks), len(burns)))
 		return
 	}
-	modAddr := ""
 	for _, c := range locks {
-		a := termsOf(fi, c.Call.Args) // nft: ctx,class,id,name,uri,data,src,dst ; mt: ctx,class,id,amount,src,dst
+		a := c.Args() // nft: ctx,class,id,name,uri,data,src,dst ; mt: ctx,class,id,amount,src,dst
 		n := len(a)
-		site := fi.InstrPos(c)
+		site := k.dcPos(fi, c)
 		k.r.Check(a[1] == sp.class.String() && a[2] == sp.id.String(), id+"/"+app.send+".lock.asset", "BIND", fn, site, "escrow transfer moves the (class,id) parameters", "escrow transfer moves ("+a[1]+","+a[2]+"), expected the class and id parameters")
 		k.r.Check(a[n-2] == sp.sender.String(), id+"/"+app.send+".lock.owner", "BIND", fn, site, "escrow transfer debits the sender parameter", "escrow transfer debits "+clip(a[n-2])+", expected the sender parameter (ownership of the asset is not enforced for the message signer)")
-		modAddr = a[n-1]
 		k.r.Check(strings.Contains(a[n-1], "GetModuleAddress"), id+"/"+app.send+".lock.escrow", "BIND", fn, site, "escrow transfer credits the module account", "escrow transfer credits "+clip(a[n-1])+", expected the transfer module account")
 		if app.hasAmount && sp.amount != nil {
 			k.r.Check(a[3] == sp.amount.String(), id+"/"+app.send+".lock.amount", "BIND", fn, site, "escrow transfer moves exactly the amount parameter", "escrow transfer moves "+clip(a[3])+", expected the amount parameter")
 		}
 	}
-	_ = modAddr
 	for _, c := range burns {
-		a := termsOf(fi, c.Call.Args) // nft: ctx,class,id,owner ; mt: ctx,class,id,amount,owner
+		a := c.Args() // nft: ctx,class,id,owner ; mt: ctx,class,id,amount,owner
 		n := len(a)
-		site := fi.InstrPos(c)
+		site := k.dcPos(fi, c)
 		k.r.Check(a[1] == sp.class.String() && a[2] == sp.id.String(), id+"/"+app.send+".burn.asset", "BIND", fn, site, "burn destroys the (class,id) parameters", "burn destroys ("+a[1]+","+a[2]+"), expected the class and id parameters")
 		k.r.Check(a[n-1] == sp.sender.String(), id+"/"+app.send+".burn.owner", "BIND", fn, site, "burn debits the sender parameter", "burn debits "+clip(a[n-1])+", expected the sender parameter (ownership of the voucher is not enforced for the message signer)")
 		if app.hasAmount && sp.amount != nil {
@@ -126,8 +138,8 @@ func (k *K) appSendRule(id string, app appDesc) {
 			}
 		})
 		lockOrBurn := func(in ssa.Instruction) bool {
-			for _, c := range append(append([]*ssa.Call{}, locks...), burns...) {
-				if ssa.Instruction(c) == in {
+			for _, c := range append(append([]DeepCall{}, locks...), burns...) {
+				if c.Outer == in {
 					return true
 				}
 			}
@@ -135,22 +147,6 @@ func (k *K) appSendRule(id string, app appDesc) {
 		}
 		path := fi.PathAvoiding(s, lockOrBurn)
 		k.r.Check(path == nil, id+"/"+app.send+".pair", "MUST-PASS", fn, fi.InstrPos(s), "every path to SendPacket locks or burns the asset first", "SendPacket reachable without locking or burning the asset: "+fi.DescribePath(path))
-		// success of the token operation dominates SendPacket
-		okDom := false
-		for _, c := range locks {
-			if fi.ErrNilDominates(c, s.Block()) {
-				okDom = true
-			}
-		}
-		okDom2 := false
-		for _, c := range burns {
-			if fi.ErrNilDominates(c, s.Block()) {
-				okDom2 = true
-			}
-		}
-		// at a merge point neither dominates individually: require each op's error edge to fail instead (errprop) and the flag pairing below
-		_ = okDom
-		_ = okDom2
 	}
 	if away == nil {
 		k.r.Undecided(id+"/"+app.send+".flag", "BIND", fn, k.w.Pos(fi.Fn.Pos()), "cannot find the AwayFromOrigin field of the packet data passed to SendPacket")
@@ -176,11 +172,11 @@ func (k *K) appSendRule(id string, app appDesc) {
 		k.r.Undecided(id+"/"+app.send+".direction", "BIND", fn, k.w.Pos(fi.Fn.Pos()), "the AwayFromOrigin flag is not the result of determineAwayFromOrigin(class, dest): "+clip(away.String()))
 	}
 	for _, c := range locks {
-		k.r.Check(fi.HasAtom(c.Block(), away.String()), id+"/"+app.send+".flag.lock", "GUARD-DOM", fn, fi.InstrPos(c),
+		k.r.Check(k.dcHasAtom(fi, c, away.String()), id+"/"+app.send+".flag.lock", "GUARD-DOM", fn, k.dcPos(fi, c),
 			"escrow lock happens exactly when the packet says AwayFromOrigin=true", "escrow lock is not guarded by the same boolean that is written into the packet's AwayFromOrigin ("+clip(away.String())+")")
 	}
 	for _, c := range burns {
-		k.r.Check(fi.HasAtom(c.Block(), "!"+away.String()), id+"/"+app.send+".flag.burn", "GUARD-DOM", fn, fi.InstrPos(c),
+		k.r.Check(k.dcHasAtom(fi, c, "!"+away.String()), id+"/"+app.send+".flag.burn", "GUARD-DOM", fn, k.dcPos(fi, c),
 			"voucher burn happens exactly when the packet says AwayFromOrigin=false", "voucher burn is not guarded by the negation of the boolean written into the packet's AwayFromOrigin ("+clip(away.String())+")")
 	}
 }
